@@ -134,16 +134,16 @@ def run(prop, tier, replay=None):
         # the clause about errors raised from the watcher's own callback (event-queue overflow, unreadable
         # events): the real fs worker with a fake watcher whose callback fires bursts against a small queue
         import fscheck
-        cb = fscheck.callback_scripts()
+        cb = fscheck.callback_scripts() + fscheck.failure_scripts()
         cb_by = {s["id"]: s for s in cb}
         _, cacc, crej, cstats, ctotal = fscheck.run_scripts(cb, "C15cb")
         for r in crej:
             sid = r["script"] or ""
             path = vlib.save_replay(prop, "%s_%s" % (sid, vlib.digest(r["event"])), dict(
                 kind="trace", property=prop, script=cb_by.get(sid), rejected_at_line=r["line"], event=r["event"],
-                why="the watcher callback's events / errors are not those of FsWorker.CallbackBurst",
+                why="the errors of the fs worker (failing watch / unwatch calls, the watcher callback's overflow and errors) are not those of FsWorker",
                 trace=[json.loads(x) for x in r["lines"]]))
-            violations.append(("%s: watcher-callback burst: dropped events / errors differ from the specification at line %d (%s)"
+            violations.append(("%s: fs worker errors (registration failures / watcher-callback burst) differ from the specification at line %d (%s)"
                                % (sid, r["line"], r["event"]["e"]), path))
         acc += cacc
         total += ctotal
